@@ -48,7 +48,20 @@ def result_type(*args):
 def can_cast(a, b, casting="safe"):
     a = a.dtype if hasattr(a, "dtype") and not isinstance(a, dtype) else dtype(a)
     b = dtype(b)
-    return S.promote_cls(a.type, b.type) is b.type
+    if casting == "unsafe":
+        return True
+    if casting in ("no", "equiv"):
+        return a == b
+    if S.promote_cls(a.type, b.type) is b.type:
+        return True
+    if casting == "same_kind":
+        kinds = {"b": 0, "i": 1, "u": 1, "f": 2, "c": 3}
+        if a.kind in kinds and b.kind in kinds:
+            return kinds[a.kind] <= kinds[b.kind]
+        return False
+    if casting != "safe":
+        raise ValueError(f"casting must be one of 'no', 'equiv', 'safe', 'same_kind', or 'unsafe' (got {casting!r})")
+    return False
 
 
 class iinfo:
